@@ -121,7 +121,7 @@ def fixed_cases(tier):
         out.append({"prog": {"src": s, "mode": "exec", "optimize": 0, "min_version": 7},
                     "steps": [["code_roundtrip", None], ["json_roundtrip", None], ["normalize", None], ["code_roundtrip", None],
                               ["renormalize_twice", None], ["json_roundtrip", None]]})
-    for s in gen_source.jump_cascade_sources():
+    for s in gen_source.jump_cascade_sources() + gen_source.many_cells_sources():
         out.append({"prog": {"src": s, "mode": "exec", "optimize": 0, "min_version": 7},
                     "steps": [["normalize", None], ["code_roundtrip", None], ["code_roundtrip", None]]})
     if tier == "thorough":
